@@ -176,9 +176,9 @@ func (g *G) excluded(id string) bool {
 	return false
 }
 
-var depDirPool = []string{"multivendor/api", "a/x", "b/x", "a/b/x", "c/a/b/x", "dep", "lib/dep", "util", "pkg/util", "x/v2", "x", "models", "api/models",
+var depDirPool = []string{"testify/mock", "mock", "multivendor/api", "a/x", "b/x", "a/b/x", "c/a/b/x", "dep", "lib/dep", "util", "pkg/util", "x/v2", "x", "models", "api/models",
 	"db/models", "one", "two", "three", "a/one", "b/one"}
-var depDirConflict = []string{"3rdparty/x", "2fa/api", "lib-go", "go-lib", "lib", "multivendor/api", "xvendor/dep", "a/x", "b/x", "a/b/x", "c/b/x", "c/a/b/x", "d/c/a/b/x", "b-c/x", "bc/x", "go-x", "x", "x-go", "x_y", "xy", "x.v2", "x/v2", "y/v2",
+var depDirConflict = []string{"testify/mock", "gomock/mock", "mock", "3rdparty/x", "2fa/api", "lib-go", "go-lib", "lib", "multivendor/api", "xvendor/dep", "a/x", "b/x", "a/b/x", "c/b/x", "c/a/b/x", "d/c/a/b/x", "b-c/x", "bc/x", "go-x", "x", "x-go", "x_y", "xy", "x.v2", "x/v2", "y/v2",
 	"yaml.v3", "k8s.io/api", "api", "v1/api", "v2/api", "sync", "my/sync", "io", "my/io", "context", "my/context", "errors", "time",
 	"my/time", "template", "my/template", "rand", "http", "my/http", "a/http", "b/http", "1x", "type", "a/type", "go/ast", "url"}
 
@@ -1793,7 +1793,7 @@ func (it *Iface) render(q Qual) string {
 	return b.String()
 }
 
-var aliasPool = []string{"a", "b", "x", "pkg", "dep", "m", "t", "std", "al", "imp", "v1"}
+var aliasPool = []string{"a", "b", "x", "pkg", "dep", "m", "t", "std", "al", "imp", "v1", "mock", "callInfo"}
 
 func (g *G) assignFiles() {
 	nf := g.Int(1, 3)
